@@ -443,8 +443,8 @@ def check(prog, run):
 
     # ---- I1 memoised verdict dropped by every mutator
     r = run.rule("I1", "every Schema method that writes a validation input (field.resolver, field.subscription_resolver, "
-                       "object_type.default_resolver) resets self._is_valid on every path after the write; validate() recomputes "
-                       "when the verdict is None", 4)
+                       "object_type.default_resolver) resets self._is_valid on every path after the write, and on every path that "
+                       "consults the member's current resolver and returns without writing; validate() recomputes when the verdict is None", 4)
     sch = prog.get_class(SCHEMA, "Schema")
     inputs = ("resolver", "subscription_resolver", "default_resolver")
     for n, m in sch.methods.items():
@@ -462,6 +462,8 @@ def check(prog, run):
                     return "invalidate"
             if isinstance(x, ast.Call) and isinstance(x.func, ast.Attribute) and x.func.attr == "_invalidate_and_rebuild_caches":
                 return "invalidate"
+            if isinstance(x, ast.Attribute) and isinstance(x.ctx, ast.Load) and x.attr in inputs and not (isinstance(x.value, ast.Name) and x.value.id == "self"):
+                return "consult"
             return None
         normal, raised = event_paths(m.node, ev, may_raise=lambda nn: None)
         for seq in sorted(normal):
@@ -470,6 +472,13 @@ def check(prog, run):
                 run.report(r, "%s:Schema.%s:stale-verdict" % (SCHEMA, n), m.where(),
                            "Schema.%s assigns a resolver without resetting self._is_valid afterwards: validate() keeps returning the "
                            "verdict computed before the resolver was (re)assigned" % n)
+            elif "write" not in seq and "consult" in seq and "invalidate" not in seq:
+                # a registration that looks at the member's resolver and returns without writing (the callable is already in place, ...) still hands the schema a
+                # resolver it has to answer for: the member may have received it through another schema sharing the Field /
+                # type object, or by direct assignment, after the verdict was computed
+                run.report(r, "%s:Schema.%s:returns-without-invalidating" % (SCHEMA, n), m.where(),
+                           "Schema.%s can return normally without resetting self._is_valid (path %s): a registration that finds the "
+                           "resolver already in place leaves a verdict computed before that resolver was attached" % (n, list(seq)))
     vd = sch.methods.get("validate")
     shapes.require(vd is not None, "C13.I1: Schema.validate not found")
     # path form: with the memo None every execution calls validate_schema(self); with a verdict stored none does
